@@ -495,7 +495,12 @@ pub(crate) fn generate_pipeline(
                             ir::GlobalStorage::Extern => {
                                 match context.global_variable_modes.get(gid).unwrap() {
                                     GlobalMode::Parameter { .. } => {
-                                        let set_index = global_to_set_index.get(gid).unwrap();
+                                        // Only resources receive a binding slot
+                                        // Other externs such as loose constants or structs of resources are in no argument buffer
+                                        let set_index = match global_to_set_index.get(gid) {
+                                            Some(set_index) => set_index,
+                                            None => return Err(GenerateError::UnboundGlobal),
+                                        };
                                         let member_expr = ast::Expression::Member(
                                             Box::new(Located::none(ast::Expression::Identifier(
                                                 ast::ScopedIdentifier::trivial(&format!(
